@@ -394,7 +394,20 @@ def utf8 : Sx → List Sx
 def cfgOut (G : CFG Sx K) (ctr : Nat) : Json :=
   Json.mkObj [("cfg", cfgToJson G), ("ctr", .num ⟨ctr, 0⟩)]
 
-variable [DecidableEq K] [HasInv K] in
+/-- the name `(x, "bot")` that `unarycycleremove` gives the copy of a cyclic nonterminal -/
+def ucBotName (x : Sx) : Sx := Sx.tup [x, .s "bot"]
+
+/-- [[[node…], [[j,k,w]…]], …] → `WeightedGraph.Blocks` as the real code computed them -/
+def blocksOfJson (j : Json) : E (List (Block Sx K)) := do
+  (← getArr j).mapM fun e => do
+    match ← getArr e with
+    | [ns, clo] => pure ⟨← sxList ns, ← triplesOfJson (K := K) clo⟩
+    | _ => throw "bad block"
+
+def optBool (j : Json) (k : String) : Bool :=
+  match j.getObjVal? k with | .ok (.bool b) => b | _ => false
+
+variable [DecidableEq K] [HasInv K] [HasStar K] in
 /-- {"op":"transform","name":…,"cfg":…,"ctr":k,…} → {"cfg":…,"ctr":k'} — mirror models of cfg.py -/
 def opTransform (j : Json) : E Json := do
   let G : CFG Sx K ← cfgOfJson (← getField j "cfg")
@@ -410,6 +423,27 @@ def opTransform (j : Json) : E Json := do
   | "unaryremove" => do
       let W ← fun2OfJson (K := K) (← getField j "W")
       pure (cfgOut (unaryRemove W G) ctr)
+  | "unarycycleremove" => do
+      -- `A = G[·,·]` and `blocks = G.Blocks` as observed in the real call; "trim": the `trim=True` path
+      let A ← fun2OfJson (K := K) (← getField j "A")
+      let blocks ← blocksOfJson (K := K) (← getField j "blocks")
+      let G' := unaryCycleRemove A blocks ucBotName G
+      pure (cfgOut (if optBool j "trim" then trim G' else G') ctr)
+  | "unarycycleremove_full" => do
+      -- only the ORDER of the blocks (and of the nodes inside a block) is taken from the real code; the graph
+      -- `_unary_graph()`, the check that `bl` is its SCC decomposition sources first, the closures `_closure`
+      -- and the rules are the model's: the instantiation of `ucycle_no_unary_cycle_graph`
+      let bl ← (← getArr (← getField j "bl")).mapM sxList
+      let g := unaryGraph G
+      let star : K → K := fun x => match HasStar.star x with | some y => y | none => 0
+      let divergent := bl.any fun N => (lehmannPivots g star N).any fun a => (HasStar.star a).isNone
+      let G' := unaryCycleRemove g.E (mkBlocks g star bl) ucBotName G
+      pure (Json.mkObj [("cfg", cfgToJson (if optBool j "trim" then trim G' else G')), ("ctr", .num ⟨ctr, 0⟩),
+        ("nodes", .arr (g.nodes.map sxToJson).toArray), ("edges", triplesToJson ((linDedup g.arcs).map fun k => (k, wlook g.edges k))),
+        ("scc_ok", .bool (sccCheck g g.arcs bl)), ("scc_rules_ok", .bool (sccCheck g (unaryEdges G) bl)),
+        ("divergent", .bool divergent), ("arcs_complete", .bool (unaryArcsComplete G)),
+        ("has_unary_cycle", .bool (hasUnaryCycle bl G)), ("no_unary_cycle", .bool (noUnaryCycle G)),
+        ("out_no_unary_cycle", .bool (noUnaryCycle G'))])
   | "unfold" => do
       let i ← getNat (← getField j "i")
       let k ← getNat (← getField j "k")
@@ -447,6 +481,18 @@ def opShape (j : Json) : E Json := do
     ("no_unary_cycle", b (noUnaryCycle G)), ("trim_useful", b (trimUseful G)),
     ("orig_start_generating", b (match og with | some o => decide (o.S ∈ generating o) | none => true))])
 
+variable [DecidableEq K] in
+/-- {"op":"ucycle_pred","cfg":…,"bl":[[…]…]} → `has_unary_cycle` of the mirror model on the blocks `bl` the real
+`_unary_graph().blocks` returned, the model-side predicate `noUnaryCycle`, and whether `bl` passes the verified
+SCC check for the model's `_unary_graph` -/
+def opUcyclePred (j : Json) : E Json := do
+  let G : CFG Sx K ← cfgOfJson (← getField j "cfg")
+  let bl ← (← getArr (← getField j "bl")).mapM sxList
+  let g := unaryGraph G
+  pure (Json.mkObj [("has_unary_cycle", .bool (hasUnaryCycle bl G)), ("no_unary_cycle", .bool (noUnaryCycle G)),
+    ("scc_ok", .bool (sccCheck g g.arcs bl)), ("scc_rules_ok", .bool (sccCheck g (unaryEdges G) bl)),
+    ("arcs_complete", .bool (unaryArcsComplete G))])
+
 def runOpK [DecidableEq K] [HasInv K] [HasStar K] (op : String) (j : Json) : E Json :=
   match op with
   | "linear" => opLinear (K := K) j
@@ -461,6 +507,7 @@ def runOpK [DecidableEq K] [HasInv K] [HasStar K] (op : String) (j : Json) : E J
   | "wfsa_op" => opWfsaOp (K := K) j
   | "wfsa_op2" => opWfsaOp2 (K := K) j
   | "shape" => opShape (K := K) j
+  | "ucycle_pred" => opUcyclePred (K := K) j
   | "transform" => opTransform (K := K) j
   | "wn" => opWn (K := K) j
   | _ => throw s!"unknown op {op}"
